@@ -34,6 +34,10 @@ CONSTANTS
   SwapAmounts = {}
   MaxRej = 0
   Sample = FALSE
+  InitIbc = 0
+  DeployExtra = {}
+  HookVariants = {}
+  UpgradeTo = {}
   MathMaxIn = 0
   MathScales = {0}
 INVARIANTS
